@@ -56,9 +56,14 @@ def run(rng, tier, res=None):
         else:
             D = np.array([[rng.uniform(0.1, 1.0) for _ in range(d)] for _ in range(N)])
             D = D / D.sum(axis=1, keepdims=True)
+        if case % 4 == 3:
+            D = D.astype(np.float32)       # single-precision datasets: both routes must evaluate the metric on the SAME values
         Y = np.array([i % 2 for i in range(N)], dtype=int); rng.shuffle(Y)
         ext = rng.choice(["txt", "csv"])
-        path = os.path.join(tmp, f"d{case}.{ext}")
+        # a few path names are re-used, so files are overwritten with other datasets (often of the same shape):
+        # what a model reads must be what the file holds NOW
+        path = os.path.join(tmp, f"d{case % 4}.{ext}")
+        reused = os.path.exists(path)
         kind = ["sup", "semi", "unsup"][case % 3]
         meta = {"metric": metric, "ext": ext, "kind": kind, "D": D.tolist(), "Y": Y.tolist()}
         try:
@@ -90,10 +95,29 @@ def run(rng, tier, res=None):
             sa, sb = state(a), state(b)
             if sa != sb:
                 fields = ["prototypes", "costs", "predecessors", "labels", "clusters", "roots", "order"]
-                msgs.append(f"{kind}/{metric}/.{ext}: pre-computed vs on-the-fly training differ in "
+                msgs.append(f"{kind}/{metric}/.{ext}/{D.dtype}: pre-computed vs on-the-fly training differ in "
                             f"{[f for f, u, v in zip(fields, sa, sb) if u != v]}")
             if repr(pa) != repr(pb):
-                msgs.append(f"{kind}/{metric}/.{ext}: predictions differ: {pa} vs {pb}")
+                msgs.append(f"{kind}/{metric}/.{ext}/{D.dtype}: predictions differ: {pa} vs {pb}")
+            if reused and msgs:
+                # the same matrix through a path never used before: if that agrees, the disagreement is a stale read
+                fresh = os.path.join(tmp, f"fresh{case}.{ext}")
+                shutil.copyfile(path, fresh)
+                try:
+                    if kind == "sup":
+                        c_ = SupervisedOPF(distance=metric, pre_computed_distance=fresh); c_.fit(X1.copy(), Y1.copy(), I1)
+                    elif kind == "semi":
+                        c_ = SemiSupervisedOPF(distance=metric, pre_computed_distance=fresh)
+                        c_.fit(D[:nl].copy(), Yl.copy(), D[nl:nl + nu].copy(), np.arange(nl))
+                    else:
+                        c_ = UnsupervisedOPF(min_k=1, max_k=mk, distance=metric, pre_computed_distance=fresh); c_.fit(X1.copy(), Y1.copy(), I1)
+                    if state(c_) == sa:
+                        res.violations.append({"property": "C07", "what": f"a fresh {kind} model reading a re-written distance file differs from one "
+                                               f"reading the identical matrix from an unused path (result depends on the process history)", "replay": meta})
+                except Exception:
+                    pass
+            res.hit("path_reused" if reused else "path_new")
+            res.hit("dtype_" + str(D.dtype))
             # get_distances on the fitted (on-the-fly) model
             Gm = a.get_distances()
             nd = a.subgraph.nodes
@@ -104,11 +128,28 @@ def run(rng, tier, res=None):
                 else:
                     continue
                 break
+            Gm0 = np.array(Gm, copy=True)
             Gn = a.get_distances(normalize=True)
             if Gm.max() > Gm.min():
-                W = (Gm - Gm.min()) / (Gm.max() - Gm.min())
+                W = (Gm0 - Gm0.min()) / (Gm0.max() - Gm0.min())
                 if np.abs(Gn - W).max() > 1e-12 or Gn.min() < -1e-12 or Gn.max() > 1 + 1e-12:
                     msgs.append("normalised get_distances is not the min-max rescaling to [0, 1]")
+            # any sequence of requests on one fitted model: a raw request after a normalised one is still the metric,
+            # and a matrix handed out earlier is not changed by later requests
+            Gn0 = np.array(Gn, copy=True)
+            Gm2 = a.get_distances()
+            if np.array(Gm2).tobytes() != Gm0.tobytes():
+                msgs.append("get_distances() after get_distances(normalize=True) differs from the first raw matrix")
+            if np.array(Gm).tobytes() != Gm0.tobytes():
+                msgs.append("the matrix returned by the first get_distances() was changed by a later request")
+            Gn2 = a.get_distances(normalize=True)
+            if np.array(Gn2).tobytes() != Gn0.tobytes() or np.array(Gn).tobytes() != Gn0.tobytes():
+                msgs.append("get_distances(normalize=True) is not repeatable on one fitted model")
+            # the file-backed model reports the file's entries for its own training samples
+            Gb = b.get_distances()
+            if kind != "semi" and np.array(Gb).tobytes() != Gm0.tobytes():
+                msgs.append(f"get_distances() of the file-backed {kind} model differs from the metric on its training pairs")
+            res.hit("get_distances_sequence")
             viol(msgs, meta)
         except Exception as ex:
             viol(f"{kind}/{metric}/.{ext}: {type(ex).__name__}: {ex}", meta)
